@@ -95,7 +95,7 @@ func ruleRotatingCommitCarriesRecord(p *Prog, r *Report, rule string) {
 		r.Fail(fnName(fn), "unresolved-anchor", "commit calls newManifest", "no call found", p.Pos(fn.Pos()), nil)
 		return
 	}
-	fromR := func(field string) VMatch {
+	_ = func(field string) VMatch {
 		return func(v ssa.Value) bool {
 			u, ok := stripConv(v).(*ssa.UnOp)
 			if !ok || u.Op != token.MUL {
@@ -138,16 +138,50 @@ func ruleRotatingCommitCarriesRecord(p *Prog, r *Report, rule string) {
 			r.Fail(fnName(fn), "rotation-drops-record", what,
 				fmt.Sprintf("newManifest(nil, ..) at %s: the snapshot record is filled from the OLD session state (stJournalNum/stSeqNum); the edit's journal/sequence numbers are lost from the manifest and the session", p.Pos(c.Pos())), p.Pos(c.Pos()), nil)
 		default:
+			// the fresh record may be built in place, or by a helper that is handed r
+			scope, base := fn, ssa.Value(rparam)
 			al, ok := arg.(*ssa.Alloc)
+			if hc, isCall := arg.(*ssa.Call); isCall && !ok {
+				if callee := staticCallee(&hc.Call); callee != nil && len(callee.Blocks) > 0 {
+					for i, a := range hc.Call.Args {
+						if a == ssa.Value(rparam) && i < len(callee.Params) {
+							scope, base = callee, callee.Params[i]
+						}
+					}
+					if scope == callee {
+						instrs(callee, func(_ *ssa.BasicBlock, _ int, in ssa.Instruction) {
+							if ret, isRet := in.(*ssa.Return); isRet && len(ret.Results) == 1 {
+								if a2, isAl := retValue(ret, ret.Results[0]).(*ssa.Alloc); isAl {
+									al, ok = a2, true
+								}
+							}
+						})
+					}
+				}
+			}
+			fromBase := func(field string) VMatch {
+				return func(v ssa.Value) bool {
+					u, ok := stripConv(v).(*ssa.UnOp)
+					if !ok || u.Op != token.MUL {
+						return false
+					}
+					fa, ok := u.X.(*ssa.FieldAddr)
+					if !ok {
+						return false
+					}
+					_, f, b, ok := fieldOf(fa)
+					return ok && f == field && b == base
+				}
+			}
 			okJ, okS := false, false
 			if ok {
-				for _, in := range findCalls(fn, fSetJournalNum) {
-					if argIs(in, 0, func(v ssa.Value) bool { return v == al }) && argIs(in, 1, fromR("journalNum")) {
+				for _, in := range findCalls(scope, fSetJournalNum) {
+					if argIs(in, 0, func(v ssa.Value) bool { return v == al }) && argIs(in, 1, fromBase("journalNum")) {
 						okJ = true
 					}
 				}
-				for _, in := range findCalls(fn, fSetSeqNum) {
-					if argIs(in, 0, func(v ssa.Value) bool { return v == al }) && argIs(in, 1, fromR("seqNum")) {
+				for _, in := range findCalls(scope, fSetSeqNum) {
+					if argIs(in, 0, func(v ssa.Value) bool { return v == al }) && argIs(in, 1, fromBase("seqNum")) {
 						okS = true
 					}
 				}
